@@ -450,6 +450,78 @@ func chainRule(c *core.Ctx) {
 		if !f.encode {
 			want = []string{"reverseLookup", "reverseEscape"}
 		}
+		var delegProblems []string
+		// the table walk may live in an unexported helper shared by several entry points (Encode and the encoder's Transform
+		// both calling toSeptets): the one helper that consults the tables stands for the function in this rule
+		{
+			own := false
+			for _, b := range fn.Blocks {
+				for _, ins := range b.Instrs {
+					if lk, ok := ins.(*ssa.Lookup); ok && lk.CommaOk && len(tableChoices(lk, want)) > 0 {
+						own = true
+					}
+				}
+			}
+			if !own {
+				var helpers []*ssa.Function
+				for _, b := range fn.Blocks {
+					for _, ins := range b.Instrs {
+						call, ok := ins.(*ssa.Call)
+						if !ok {
+							continue
+						}
+						h := call.Call.StaticCallee()
+						if h == nil || h.Pkg != fn.Pkg || h.Object() == nil || h.Object().Exported() || len(h.Blocks) == 0 {
+							continue
+						}
+						consults := false
+						for _, hb := range h.Blocks {
+							for _, hi := range hb.Instrs {
+								if lk, ok := hi.(*ssa.Lookup); ok && lk.CommaOk && len(tableChoices(lk, want)) > 0 {
+									consults = true
+								}
+							}
+						}
+						if consults {
+							helpers = append(helpers, h)
+						}
+					}
+				}
+				if len(helpers) == 1 {
+					// the helper's refusal must not be lost on the way out: its error result is tested or returned by the caller
+					h := helpers[0]
+					if res := h.Signature.Results(); res.Len() > 0 && isErrorType(res.At(res.Len()-1).Type()) {
+						for _, b := range fn.Blocks {
+							for _, ins := range b.Instrs {
+								call, ok := ins.(*ssa.Call)
+								if !ok || call.Call.StaticCallee() != h {
+									continue
+								}
+								used := false
+								if call.Referrers() != nil {
+									for _, r := range *call.Referrers() {
+										ex, isE := r.(*ssa.Extract)
+										if !isE || ex.Index != res.Len()-1 || ex.Referrers() == nil {
+											continue
+										}
+										for _, rr := range *ex.Referrers() {
+											switch rr.(type) {
+											case *ssa.Return, *ssa.BinOp, *ssa.Phi:
+												used = true
+											}
+										}
+									}
+								}
+								if !used {
+									delegProblems = append(delegProblems, "the error of "+h.Name()+" is dropped at "+c.Prog.Pos(call.Pos())+": a character it refuses is accepted by "+f.name)
+								}
+							}
+						}
+					}
+					fn = h
+				}
+			}
+		}
 		// lookups in the tables and the character values they are keyed by
 		roots := map[ssa.Value]bool{}
 		consulted := map[string]int{}
@@ -543,6 +615,7 @@ func chainRule(c *core.Ctx) {
 			}
 		}
 		var problems []string
+		problems = append(problems, delegProblems...)
 		for _, w := range want {
 			if consulted[w] == 0 {
 				problems = append(problems, "table "+w+" is never consulted")
